@@ -38,7 +38,7 @@ from c03_lib import Ref  # noqa: E402
 KINDS = ['file', 'demo:file:mapping', 'demo:mapping:mapping', 'mapping']
 HEX_KINDS = ['hex:file', 'hex:demo:file:mapping', 'hex:demo:mapping:mapping']
 RECORD_CLASSES = [(11, 0), (11, 0), (12, 0), (13, 1), (11, 2), (1, 0), (2, 0), (3, 0), (4, 0), (9, 0), (8, 0),
-                  (9, 2), (14, 1), (15, 0), (15, 0)]
+                  (9, 2), (14, 1), (15, 0), (15, 0), (16, 0), (17, 1), (18, 0)]
 
 
 # =============================================================================== generators
@@ -187,7 +187,8 @@ def gen_undo_chain_case(rng, kind):
     transactions — in particular "undo the current one" (the undo record is then a back pointer
     without pickle) followed by the undo of an OLDER transaction, whose resolver call must be given
     the data the back pointer designates as the current state; also undo of an undo"""
-    cid, args = rng.choice([(11, 0), (11, 0), (12, 0), (13, 1), (11, 2), (12, 0), (2, 0), (3, 0), (4, 0)])
+    cid, args = rng.choice([(11, 0), (11, 0), (12, 0), (13, 1), (11, 2), (12, 0), (2, 0), (3, 0), (4, 0), (16, 0),
+                            (17, 1), (18, 0)])
     oid = rng.choice([1, 7])
     n = rng.choice([4, 4, 5, 6])
     recs = []
@@ -250,7 +251,8 @@ def gen_spec(rng, depth):
 
 
 def gen_db_case(rng, kind):
-    xcls = rng.choice(['Merge11', 'Merge11', 'Merge12', 'NewArgs', 'Counter', 'Raises', 'Conflicts', 'Plain'])
+    xcls = rng.choice(['Merge11', 'Merge11', 'Merge12', 'NewArgs', 'Counter', 'Raises', 'Conflicts', 'Plain',
+                       'NeedsArg', 'NeedsArgNew', 'SideEffect', 'Moody'])
     nconn = rng.choice([2, 2, 3])
 
     specs = []
